@@ -1450,6 +1450,10 @@ impl World {
                 })?;
             }
             Action::Compact { n, back } => self.compact(*n, *back)?,
+            Action::ConfExercise { n, seed } => {
+                let r = self.conf_exercise(*n, *seed);
+                self.gate(r)?;
+            }
             Action::StorageExercise { n, seed } => {
                 if let Some(node) = self.nodes.get(n) {
                     if node.started {
@@ -1586,6 +1590,7 @@ impl World {
             Action::ReportSnapshot { n, .. } => (19, *n),
             Action::Compact { n, .. } => (20, *n),
             Action::StorageExercise { n, .. } => (34, *n),
+            Action::ConfExercise { n, .. } => (36, *n),
             Action::SetKnob { n, .. } => (21, *n),
             Action::StorageFault { n, .. } => (22, *n),
             Action::EntriesFetched { n } => (23, *n),
